@@ -25,6 +25,10 @@ add("C05", "model_checking",
     "Explicit-state model checking of the real strax.Mailbox: the complete reachable state graph (all thread schedules at lock/condition/thread-start/join/future granularity) of small sender/reader/worker configurations is explored by a stateless DFS with canonical-state pruning under a controlled scheduler that replaces strax.mailbox.threading; every terminal state must show exact in-order delivery to every subscriber and every state must respect the capacity; deadlock states are violations.",
     "atomicity between scheduling points (mailbox state only touched under its RLock); no condition time-outs or spurious wake-ups; canonical state hashing (cross-checked against stateless exploration at delay bound 1); bounds: <=3 subscribers, <=4-5 messages, capacity <=4",
     "explicit-state exploration of all thread interleavings of the implementation (stateless DFS + state hashing, controlled scheduler)", "vsched")
+add("C06", "model_checking",
+    "Stateless model checking of the real ThreadedMailboxProcessor driven through Context.get_iter under the controlled scheduler: for 153 cells (graph x failing stage {source, plugin, multi-output plugin, loader, saver of target / side output, consumer closing, none} x chunk index x {eager, lazy, worker pool}) every thread schedule with up to B delays is executed; the caller must receive exactly the injected exception, no deadlock state may exist, all pipeline threads must have terminated when the call returns, capacity is respected in every state and fault-free runs return the reference rows. The single-thread processor is checked at every failure position.",
+    "schedules exhausted only up to the delay bound (quick: 1 for half the cells, thorough: 1-2); atomic steps = lock / condition / thread / future operations of strax.mailbox and the executors (replaced by scheduler-controlled equivalents); waits never time out",
+    "delay-bounded exhaustive exploration of thread interleavings of the implementation (controlled scheduler, stateless DFS, replay of every schedule prefix)", "vsched")
 add("C07", "exploration",
     "Exhaustive small-scope enumeration of the real Chunk.split/concatenate/merge/Rechunker code against a reference model: every sorted interval array of <=4 rows on an 8-point grid x every split time x flags, every law-abiding partition, every gap pattern for get_splits, sub/superrun annotations. The finite space is visited completely, nothing is sampled.",
     "small-scope hypothesis (<=4-5 rows, 8 grid points); the reference model in vlib/checks/c07.py is trusted",
@@ -37,6 +41,10 @@ add("C09", "exploration",
     "Exhaustive enumeration of every disjoint row set (<=3-4 rows, rows longer than the window included) x every law-abiding chunking x every window (l,r) in {0..3}^2 x {per-row, per-group} window-local computations x {single, multi-output} OverlapWindowPlugins through Context.get_iter; oracle: one computation over the whole run; contiguity; a strict consumer of both outputs of the multi-output variant checks mutual alignment.",
     "small-scope hypothesis; window-local computations by construction; single-thread processor (the plugin logic is processor independent)",
     "bounded exhaustive enumeration of inputs on the implementation vs whole-run reference", "graphs")
+add("C13", "model_checking",
+    "Stateless model checking of the real threaded processor with a consumer that stops pulling after k chunks: every schedule with up to B delays runs until quiescence (no enabled thread); the number of source chunks produced at rest must be the same set for runs of N and 2N chunks (N above the buffer ceiling) and below k + stages x (2 x capacity + 2); in every state no eager mailbox exceeds its capacity; a monitor on Mailbox._can_fetch checks at every sender gate decision that a driving subscriber waits for a message that is not in the mailbox. The bare lazy mailbox is additionally explored over its FULL reachable state space with the same monitor.",
+    "delay bound 1 (2 for chain2) for the processor layer; full state space only for the bare mailbox (<=3-4 messages, <=3 subscribers); worker pools not covered (they disable lazy mode)",
+    "delay-bounded exhaustive exploration of thread interleavings to quiescence + explicit-state exploration of the bare mailbox", "vsched")
 add("C17", "exploration",
     "Exhaustive enumeration of all configurations of <=4 things x <=3 containers on a 7-point grid (both encodings, windows -2..3) against direct quadratic evaluations of the docstring definitions, under the documented preconditions; unsorted inputs must be rejected; all unsorted (time,channel) arrays of <=4 rows for stable sorting.",
     "small-scope hypothesis; zero-length intervals and the 'randomly for larger arrays' clause are outside",
